@@ -212,7 +212,7 @@ def c06_stage(v, scr, th):
 
 
 def check_c19(tier, replay):
-    inv = ["C19_IntactOrAbsent", "C19_RefusalRule", "C19_OOBFrame", "C09_FecSequence", "C09_FecTypeMatchesPosition", "C09_FecIdInRange", "C01_ReadIsNextBytes",
+    inv = ["C19_IntactOrAbsent", "C19_RefusalRule", "C19_OOBFrame", "C19_FecProtectionKept", "C09_FecSequence", "C09_FecTypeMatchesPosition", "C09_FecIdInRange", "C01_ReadIsNextBytes",
            "C02_TransferCompletes", "C10_LenWithinMtu"]
     return generic_sess_check("C19", tier, replay, "model_checking", inv, "TestSessTransfer$", ("sess_transfer",),
                               dict(SESS_RUNS=200, SESS_OOB=1), dict(SESS_RUNS=2500, SESS_OOB=1),
